@@ -69,6 +69,10 @@ impl Oracle {
         }
     }
 
+    pub fn has_binding(&self, name: &str) -> bool {
+        self.bound.contains_key(name)
+    }
+
     pub fn on_crash(&mut self) {
         self.reopened_since_crash = Some(BTreeSet::new());
     }
@@ -164,7 +168,7 @@ impl Oracle {
                     "reject:not-401",
                     "a caller without the admin key or the key bound to the addressed database was not rejected",
                     "401 unauthorized".into(),
-                    format!("{} {}", resp.status, String::from_utf8_lossy(&resp.body)),
+                    format!("{} {}", resp.status, decoded(resp).map(|v| v.to_string()).unwrap_or_else(|| vh_common::hex(&resp.body))),
                 );
             } else if resp.body != body || resp.headers != headers {
                 fail(
@@ -284,12 +288,13 @@ impl Oracle {
         match method.as_str() {
             "db.create" => {
                 if let Some(k) = key {
+                    let k = w.real(k);
                     self.bound.insert(name.clone(), k.clone());
-                    self.keys.insert(k.clone());
+                    self.keys.insert(k);
                 }
             }
             "db.set_api_key" => {
-                let k = key.clone().or_else(|| w.generated.get(fresh).cloned());
+                let k = key.as_deref().map(|k| w.real(k)).or_else(|| w.generated.get(fresh).cloned());
                 if let Some(k) = k {
                     self.bound.insert(name.clone(), k.clone());
                     self.keys.insert(k);
@@ -317,7 +322,8 @@ pub fn signature_mismatch(method: &str, resp: &ImplResp) -> Option<String> {
     if resp.status != 200 {
         // handler-level errors: only the classes a handler can produce
         let code = v.pointer("/error/code").and_then(|c| c.as_str()).unwrap_or("?");
-        let ok = matches!(code, "not_found" | "invalid_input" | "invalid_query" | "conflict" | "already_exists" | "collection_unavailable" | "gone");
+        // `internal`: e.g. `db.flush` while a collection is read-only answers 500 (engine error, sanitised)
+        let ok = matches!(code, "not_found" | "invalid_input" | "invalid_query" | "conflict" | "already_exists" | "collection_unavailable" | "gone" | "internal");
         return if ok { None } else { Some(format!("unexpected handler error {} {code} for {method}", resp.status)) };
     }
     let x = v.get("result")?;
